@@ -160,9 +160,14 @@ class World:
         if op == "Acc":
             return tr.Accumulate(self.kset(term[1]))
         if op == "Comp":
-            return tr.Composition(self.build(term[1]), self.build(term[2]))
+            outer, inner = self.build(term[1]), self.build(term[2])
+            # the public spelling `outer << inner` (Transform.compose) and the constructor, alternately
+            return outer << inner if (hash(repr(term)) & 1) else tr.Composition(outer, inner)
         if op == "Conj":
-            return tr.Conjunction([self.build(t) for t in term[1]])
+            members = [self.build(t) for t in term[1]]
+            if len(members) == 2 and (hash(repr(term)) & 2):
+                return members[0] | members[1]  # Transform.conjunct
+            return tr.Conjunction(members)
         if op == "Stack":
             return tr.Stack([self.build(t) for t in term[1]])
         raise KeyError(op)
